@@ -4,6 +4,7 @@ import P2sh.Driver.OpsDrv
 import P2sh.Driver.HMapDrv
 import P2sh.Driver.LangDrv
 import P2sh.Driver.BuiltinDrv
+import P2sh.Driver.ScanDrv
 open P2sh.Driver
 
 def dispatch (line : String) : String :=
@@ -18,6 +19,9 @@ def dispatch (line : String) : String :=
     | "eqhash" => OpsDrv.runEqHash args
     | "hmap" => HMapDrv.run args
     | "builtin" => BuiltinDrv.run args
+    | "scan" => ScanDrv.runScan args
+    | "parse" => "MODEL-SKIP ## nopanic"
+    | "compile" => "MODEL-SKIP ## nopanic"
     | _ => s!"bad-op {op}"
 
 partial def loop (h : IO.FS.Stream) (out : IO.FS.Stream) : IO Unit := do
